@@ -922,13 +922,14 @@ fn get_font_num_glyphs(font: &FontRef) -> usize {
     ret.max(maxp.num_glyphs() as usize)
 }
 
-fn remap_indices<T: Domain + std::cmp::Eq + std::hash::Hash + From<u16>>(
+fn remap_indices<T: Domain + std::cmp::Eq + std::hash::Hash + TryFrom<usize>>(
     indices: IntSet<T>,
 ) -> FnvHashMap<T, T> {
+    // the new index is the rank of the old one: it always fits the index type
     indices
         .iter()
         .enumerate()
-        .map(|x| (x.1, T::from(x.0 as u16)))
+        .filter_map(|x| Some((x.1, T::try_from(x.0).ok()?)))
         .collect()
 }
 
